@@ -595,6 +595,8 @@ def item_options(repo, out):
             "        raise ValueError('Stored weights are unscaled but no corrprods are provided')\n"
             "    weights = stored_weights\n    unscaled_weights = None",
             'VisFlagsWeights.__init__(self, vis, flags, weights, unscaled_weights)']
+    from vh.translate import normalise_source
+    want = [normalise_source(w) for w in want]
     if k < 0 or src[k:] != want:
         raise TranslateError('ChunkStoreVisFlagsWeights.__init__: the option handling after the zero fill is %s' % (src[k:] if k >= 0 else None))
     out.append('(* ChunkStoreVisFlagsWeights: van_vleck and the weight scaling act on the zero-filled arrays; weights are divided by'
